@@ -215,7 +215,7 @@ class PathTimeout(BaseException):
     """One path of the code under contract ran longer than the per-path budget."""
 
 
-PATH_BUDGET_S = float(os.environ.get("VERIF_PATH_BUDGET", "45"))
+PATH_BUDGET_S = float(os.environ.get("VERIF_PATH_BUDGET", "20"))
 EXPLORE_DEADLINE = None      # absolute time.time() after which explore() gives up with PathLimit (set by sampled families per program)
 
 
